@@ -86,6 +86,13 @@ func VerifC07Scan() {
 				partial[i][seg] = true
 				mem.Put(hash+"/states/"+store.PartialFileName(block.NewRange(from, end)), []byte{1})
 			}
+			// a leftover of a request that stopped inside the segment: a partial that starts where
+			// the segment's partial starts but ends earlier — not the segment's partial (first store;
+			// SHORT=1: on the third segment, where both stores are aligned, SHORT=2: on every segment)
+			if sh := sym.Param("SHORT", 0); i == 0 && (sh == 2 || (sh == 1 && seg == 2)) && sym.Choice("short-partial", 2) == 1 {
+				mem.Put(hash+"/states/"+store.PartialFileName(block.NewRange(from, end-2)), []byte{1})
+				sym.Reach("short-partial-present")
+			}
 		}
 	}
 	ctx := reqctx.WithRequest(context.Background(), &reqctx.RequestDetails{ResolvedStartBlockNum: start, LinearHandoffBlockNum: handoff, StopBlockNum: handoff + 5, ProductionMode: true, OutputModule: "m", Modules: mods})
